@@ -38,6 +38,7 @@ def run(chk):
     res = vlib.tlc('MC_Codec', cfg='MC_Codec.cfg' if chk.quick else 'MC_Codec_thorough.cfg', workers=8, xss='256m',
                    timeout=3000, tag='MC_Codec', coverage=not chk.quick)
     vlib.expect_mc_ok(chk, res, 'MC_Codec')
+    okm = cc.replay_model_behaviours(chk, exe, 40 if chk.quick else 600)
     if chk.quick:
         jobs = cfg_jobs(QUICK_CFGS, 3, 3, 2, 'exact')
         jobs += cfg_jobs(QUICK_LEARNED, 2, 2, 1, 'learned')
@@ -55,7 +56,7 @@ def run(chk):
         for k, v in st2.items():
             st[k] = st.get(k, 0) + v
     chk.cov['evaluations'] = st['deliver']
-    chk.cov['distinct_nontrivial'] = st['histories'] if ok else 0
+    chk.cov['distinct_nontrivial'] = st['histories'] if (ok and okm) else 0
     chk.cov['stats'] = st
     chk.cov['rule'] = ('per configuration (F,T,Z,N,Al): several packet multisets on the decoding threshold (all source / '
                        '1-3 source symbols dropped + K..K+2 total / repair only / too few / random), each delivered in several '
